@@ -13,6 +13,8 @@ def run(ctx):
     attach(r1, ps, only={'pass:delivery-only-for-T-records', 'pass:D-record-has-no-effect', 'pass:pass-ends-with-job_close', 'pass:T-record-starts-one-delivery-attempt'})
     r1.expect_min(4)
     r2 = rep.rule('C04.2-mark-position', 'R-TYPESTATE', 'the D mark lands on the record that was delivered: del_start gets mpos before the advance, mpos advances exactly once per record by the record length, markdone receives the delivery\'s mpos and seeks there')
+    for inst_, v_ in sorted(qsend.reread_sites(db, rep).items()):
+        r2.check(v_[0], inst_, v_[1], v_[2], v_[3])
     for inst_, v_ in sorted(qsend.id_width_sites(db).items()):
         r2.check(v_[0], inst_, v_[1], v_[2], v_[3])
     attach(r2, ps, only={'pass:mark-position-is-the-start-of-this-record', 'pass:mpos-advances-exactly-once-per-record', 'pass:mpos-advances-by-the-record-length'})
